@@ -67,5 +67,8 @@ CodeDeviatesOnlyInSubnormalRange ==
 
 \* this one is *expected to be violated*: TLC exhibits a witness of the defect (used by IEEE_Dev.cfg)
 CodeIsIEEE == m # 0 /\ fmt = "half" /\ HalfCodeBits(X, FALSE) # 0 - 1 => HalfCodeBits(X, FALSE) = HalfBits(X)
-FixedCodeIsIEEE == m # 0 /\ fmt = "half" => HalfCodeBits(X, TRUE) = HalfBits(X)
+\* with the proposed repair the C algorithm is IEEE everywhere (overflow is refused instead of turned into infinity)
+FixedCodeIsIEEE == m # 0 /\ fmt = "half" =>
+  \/ HalfCodeBits(X, TRUE) = HalfBits(X)
+  \/ HalfCodeBits(X, TRUE) = 0 - 1 /\ MagCode(FmtHalf, X) = InfCode(FmtHalf)
 =============================================================================
